@@ -225,18 +225,20 @@ fn layout_decls(rng: &mut Rng, p: &mut Program, start_num: u32) {
     }
 }
 
-fn build_case(rng: &mut Rng) -> Case {
-    let cxx = rng.chance(1, 2);
+/// `force`: C++, namespaces as modules, blocklisting only, and a whole leaf namespace blocklisted by one item pattern (the module
+/// then holds nothing but what the user supplies through `--module-raw-line`)
+fn build_case(rng: &mut Rng, force: bool) -> Case {
+    let cxx = force || rng.chance(1, 2);
     let n_decls = rng.range(4, 12) as usize;
     let mut p = cgen::generate(rng, &cgen::Shape { n_decls, cxx });
     layout_decls(rng, &mut p, 40);
-    let namespaces_on = cxx && rng.chance(1, 4);
+    let namespaces_on = cxx && (force || rng.chance(1, 4));
     let mut block = PatternSets::default();
     let mut opaque_pats = vec![];
     let mut blocked = BTreeSet::new();
     let mut opaque = BTreeSet::new();
     let mut annotated: BTreeMap<usize, &str> = BTreeMap::new();
-    let mode = rng.below(3); // 0 = blocklist, 1 = opaque, 2 = both
+    let mode = if force { 0 } else { rng.below(3) }; // 0 = blocklist, 1 = opaque, 2 = both
     let cand: Vec<usize> = (0..p.decls.len()).collect();
     if mode != 1 && p.inc_count > 0 && rng.chance(1, 5) {
         block.files.push(".*inc\\.h".to_owned());
@@ -298,7 +300,7 @@ fn build_case(rng: &mut Rng) -> Case {
     }
     // every declaration of one (leaf) namespace blocklisted through a single item pattern: with namespaces as modules
     // the module then holds nothing but what the user supplies
-    if mode != 1 && cxx && !p.namespaces.is_empty() && rng.chance(1, 4) {
+    if mode != 1 && cxx && !p.namespaces.is_empty() && (force || rng.chance(1, 4)) {
         let leafs: Vec<usize> = (0..p.namespaces.len()).filter(|&i| !p.namespaces.iter().any(|o| o.starts_with(&format!("{}::", p.namespaces[i])))).collect();
         if !leafs.is_empty() {
             let ns = *rng.pick(&leafs);
@@ -1069,7 +1071,10 @@ fn main() {
     for _g in 0..n_graphs {
         st.graphs += 1;
         for _s in 0..n_sel {
-            let c = build_case(&mut rng);
+            // the first cases of every run: a whole namespace blocklisted, namespaces as modules
+            let force = st.runs < 8;
+            let c = build_case(&mut rng, force);
+            if force { st.bump("forced-whole-namespace-cases"); }
             st.runs += 1;
             st.bump(if c.prog.cxx { "lang:c++" } else { "lang:c" });
             if !c.block.types.is_empty() { st.bump("blocklist-type"); }
